@@ -17,6 +17,11 @@ sympy coefficients, some circuit parameters left symbolic, answers evaluated at 
 engine is asked the whole amplitude table through `prob_amplitude` ("amps"); Stepper histories swap between circuits
 that agree on everything the request key of `Stepper.compile` looks at and ask the last question again at once.
 
+Extension round 4: `Processor.samples` is a query (engine variant "CliffordClifford2017"; the answer compared with a
+fresh processor is everything the call hands to the NoisySamplingSimulator it creates — `samples_arguments` — the
+drawn samples are random and are not compared); `Simulator.probability(StateVector, ·)` (model step `evolve`) and
+`prob_amplitude(StateVector, ·)` (a sequence of `direct` steps) are queries of the Simulator streams.
+
 Three streams of histories: recorded ones (corpus/C05, directed), random ones, and enumerated ones — for the
 backends every history over a reduced alphabet up to a length, for Simulator / Stepper / Processor every ordered
 pair of configuration steps around a query asked twice (`pairwise_*`: a step, a query that fills the caches, a
@@ -2255,6 +2260,14 @@ def pairwise_simulator(variant, rng, ncross, nq=None):
             for b in (["heralds", {"0": 0}], ["heralds", {"2": 0}], ["clear_heralds"]):
                 for q2 in vac:
                     hs.append(dict(base, ops=_cp([["precision", 0], ["circ", "c0"], ["heralds", a], q1, b, q2])))
+    # the two questions about a state vector — probability(StateVector, ·) (evolve + a sum) and
+    # prob_amplitude(StateVector, ·) (one amplitude per term) — asked again after every kind of step, also with
+    # another query in between (whatever the first call kept would be read while the evolve cache is filled again)
+    for q in PAIR_SIM_QUERIES[-2:]:
+        for a in (["heralds", {"0": 1}], ["clear_heralds"], ["ps", "[1] > 0"]):
+            for b in PAIR_SIM_STEPS:
+                hs.append(dict(base, ops=_cp([["precision", 0], ["circ", "c0"], a, q, b, q])))
+                hs.append(dict(base, ops=_cp([["precision", 0], ["circ", "c0"], a, q, b, PAIR_SIM_QUERIES[1], q])))
     return hs
 
 
@@ -2382,6 +2395,10 @@ def run(chk: core.Check):
         "Simulator model: masked and unmasked evaluation agree after herald post-selection (C04); "
         "Stepper model: describe() is injective on the parameter values used",
         "exqalibur kernels are deterministic functions of their arguments",
+        "Processor.samples: compared with a fresh processor = everything the call hands to the NoisySamplingSimulator "
+        "it creates (circuit unitary, filter, post-selection, heralds, detectors, input distribution of the provider) "
+        "and exception classes; the drawn samples are random and not compared (C09 owns their law); the sampling "
+        "engine (Clifford & Clifford) is assumed to keep nothing but the circuit and the input it is given",
     ]
     chk.required_branches = ["query-after-reconfiguration", "same-size-circuit-swap", "other-size-circuit",
                              "mask-after-input", "photon-number-change-under-mask", "exception-output",
@@ -2407,7 +2424,8 @@ def run(chk: core.Check):
                              "processor-samples-noise-change-between-calls",
                              "processor-samples-distribution-input",
                              "simulator-state-vector-amplitude-after-masked-query",
-                             "simulator-state-vector-probability-after-earlier-query"]
+                             "simulator-state-vector-probability-after-earlier-query",
+                             "simulator-state-vector-query-asked-again-after-step"]
     seed_rng = chk.rng
     jobs = []
     # corpus first
@@ -2711,7 +2729,10 @@ def account(chk, label, h, item):
         last = None
         her, masked, filt = {}, False, 0
         asked_before = False
+        sv_asked = {}
         for o in ops:
+            if o[0] != "q":
+                sv_asked = {k: "step" for k in sv_asked}
             if o[0] == "q" and o[1] == "probs_svd":
                 mode = o[3] in ("none", "pnr")
                 if last is not None and last != mode:
@@ -2731,6 +2752,10 @@ def account(chk, label, h, item):
                         chk.branch("simulator-state-vector-amplitude-after-masked-query")
                 if o[1] == "probability_sv" and asked_before:
                     chk.branch("simulator-state-vector-probability-after-earlier-query")
+                if o[1] in ("probability_sv", "amp_sv"):
+                    if sv_asked.get(json.dumps(o)) == "step":
+                        chk.branch("simulator-state-vector-query-asked-again-after-step")
+                    sv_asked[json.dumps(o)] = "asked"
                 asked_before = True
                 if her and (o[1] in ("evolve", "evolve_svd", "probs_sv", "probability_sv")
                             or (o[1] == "probs_svd" and o[3] in ("none", "pnr"))):
